@@ -430,6 +430,14 @@ kastore_read_file(kastore_t *self)
             }
         }
     }
+    /* Keys are written in sorted order and looked up by bisection, so a file
+     * whose keys are not strictly increasing is malformed. */
+    for (j = 1; j < self->num_items; j++) {
+        if (compare_items(self->items + j - 1, self->items + j) >= 0) {
+            ret = KAS_ERR_BAD_FILE_FORMAT;
+            goto out;
+        }
+    }
 out:
     return ret;
 }
